@@ -17,6 +17,11 @@ use std::collections::HashMap;
 
 pub const STEP_LIMIT: usize = 5000;
 
+/// the step budget of one execution; `GHARNESS_STEP_LIMIT` raises it for the re-run of a case that was cut at the default
+pub fn step_limit() -> usize {
+    std::env::var("GHARNESS_STEP_LIMIT").ok().and_then(|v| v.parse().ok()).unwrap_or(STEP_LIMIT)
+}
+
 pub fn parse_host(spec: &str) -> Option<Host> {
     if spec == "-" {
         return None;
@@ -156,7 +161,7 @@ pub fn execute<D: Store>(d: &mut D, entry_jump: usize, input: usize) -> String {
                 }
             }
         }
-        if steps >= STEP_LIMIT {
+        if steps >= step_limit() {
             let out = format!("steplimit depth={} log={}", depth_note, d.host_log().join(";"));
             unwind(d, raw_regs0, vals0, frames0);
             return out;
